@@ -125,4 +125,39 @@ theorem foldl_uStep (g : Graph V) (ks : List Nat) : ∀ s : St V,
     simp only [List.foldl_cons, updateLoop, uStep]
     split <;> exact ih _
 
+/-- one pass of the loop of `update_from_calculator` over (self, changed) -/
+def fcStep (g : Graph V) (cv : Nat → V) (k : Nat) (acc : St V × List Nat) : St V × List Nat :=
+  if Prim.isLeaf g k then (Prim.defnFromCalc acc.1 k cv, acc.2 ++ [k]) else acc
+
+theorem foldl_fcStep (g : Graph V) (cv : Nat → V) (ks : List Nat) : ∀ (s : St V) (ch : List Nat),
+    ks.foldl (fun acc k => fcStep g cv k acc) (s, ch) =
+      ({ s with setting := fun j => if ks.contains j && Prim.isLeaf g j then cv j else s.setting j },
+       ch ++ ks.filter (fun k => Prim.isLeaf g k)) := by
+  induction ks with
+  | nil => intro s ch; simp
+  | cons k ks ih =>
+    intro s ch
+    simp only [List.foldl_cons]
+    by_cases hl : Prim.isLeaf g k = true
+    · have h1 : fcStep g cv k (s, ch) = (Prim.defnFromCalc s k cv, ch ++ [k]) := by simp [fcStep, hl]
+      rw [h1, ih]
+      simp only [Prim.defnFromCalc, List.filter_cons, hl, if_true, List.append_assoc, List.singleton_append,
+        Prod.mk.injEq, and_true]
+      congr 1
+      funext j
+      by_cases hjk : j = k
+      · subst hjk; simp [upd, hl]
+      · have : (k == j) = false := by simp; exact fun h => hjk h.symm
+        simp [upd, hjk, List.contains_cons, this]
+    · have h1 : fcStep g cv k (s, ch) = (s, ch) := by simp [fcStep, hl]
+      rw [h1, ih]
+      have hf : List.filter (fun k => Prim.isLeaf g k) (k :: ks) = List.filter (fun k => Prim.isLeaf g k) ks := by
+        simp [List.filter_cons, hl]
+      rw [hf]
+      congr 2
+      funext j
+      by_cases hjk : j = k
+      · subst hjk; simp [hl]
+      · simp [hjk]
+
 end CogentModel.Gen.C07Ctl
